@@ -11,9 +11,9 @@ import (
 	"bytes"
 	"fmt"
 	"os"
-	"time"
 	"strconv"
 	"strings"
+	"time"
 
 	"vf/ev"
 	"vf/sip"
